@@ -12,7 +12,10 @@ RULE = ('exhaustive strings over {A,T,G} up to length 6 (quick) / 9 (thorough; 2
         'strands and gap runs (also inside codons); rf in {fwd,bwd,both,int,tuple,list} x need_start in {always,once,never} x need_stop x '
         'minlen; seq- and basket-level calls; a gap-option stream (400 quick / 4 000 thorough): gap="." and gap=".-" (and default) on texts '
         'whose gap columns are written "." (also inside codons), biased to backward frames (bwd, both, negative ints, mixed tuples), '
-        'all modes, compared with the model on the text with "." rewritten to "-" and with the degapped-sequence oracle; plus 350 (quick) / 2 500 (thorough) HISTORIES on one living BioSeq object: repeated and '
+        'all modes, compared with the model on the text with "." rewritten to "-" and with the degapped-sequence oracle; a soft-masking '
+        'stream (300 quick / 3 000 thorough): texts lower-cased in place, wholly, head/tail or in runs (str.lower, swapcase, item, slice '
+        'and data assignment) searched on backward frames - the model is applied to the text as it is, lower-case letters are residues '
+        'of no codon - and upper-case DNA/RNA searched on backward frames with warnings turned into errors; plus 350 (quick) / 2 500 (thorough) HISTORIES on one living BioSeq object: repeated and '
         'fresh-object searches, other rf orders / strand mixes / options, in-place edits (item and slice assignment, str.replace, data, '
         'reverse, rc, complement, rc through a basket holding the object twice) followed by a search, mutation of earlier results '
         '(pop, clear, append, reverse, location/rf/strand edits), other sequences with the same id and length, a basket holding the '
@@ -22,7 +25,7 @@ TRUSTED = ['CPython re (finditer over the rewritten codon alternations; modelled
            'compared on every case), bisect, dict/list operations',
            'modelled: find_orfs, _inds2orf, the part of match()/matchall() used by find_orfs with the default start/stop patterns and '
            'gap="-" (cane.py:167-343), BioSeq.rc via the C05 model; BioSeq/BioBasket.find_orfs glue is inside the comparison']
-ASSUMPTIONS = ['Python str restricted to Latin-1 code points; sequences over ACGTU and "-"',
+ASSUMPTIONS = ['Python str restricted to Latin-1 code points; sequences over ACGTU, acgtu (soft-masked, only reachable in place) and "-"',
                'the Coq model has one gap symbol "-": find_orfs(gap=".") / (gap=".-") on a text gapped with "." is compared with the '
                'model (and the first-principles oracle) on the same text with "." rewritten to "-"; that sugar treats the gap symbols '
                'alike (regex class, gap positions, rc() keeping ".", rstrip) is exactly what these cases test',
@@ -198,14 +201,69 @@ def gen_cases(rng, tier):
         cases.append(_mk('CC.TAG.GGTT..TCA.TGG', 'both', gap=g))
         cases.append(_mk('.A.TGC..CCTAAT.TAGG.GCAT.', 'both', need_start='once', need_stop=False, gap=g))
     cases += _gen_gap_stream(rng, 4000 if tier == 'thorough' else 400)
+    cases += _gen_masked_stream(rng, 3000 if tier == 'thorough' else 300)
     for _ in range(2500 if tier == 'thorough' else 350):
         cases.append(_gen_hist(rng))
     return cases
 
 
+def _mask(rng, s):
+    """lower-case the whole text, a tail/head, or a few runs"""
+    x = rng.random()
+    if x < 0.35 or len(s) < 4:
+        return s.lower()
+    if x < 0.55:
+        k = rng.randrange(1, len(s))
+        return s[:k] + s[k:].lower() if rng.random() < 0.5 else s[:k].lower() + s[k:]
+    t = list(s)
+    for _ in range(rng.randint(1, 3)):
+        i = rng.randrange(len(t))
+        j = min(len(t), i + rng.choice([1, 2, 3, 3, 6, 9]))
+        t[i:j] = [c.lower() for c in t[i:j]]
+    return ''.join(t)
+
+
+def _gen_masked_stream(rng, n):
+    """texts lower-cased in place (str.lower, swapcase, item / slice / data assignment) searched on backward frames, and RNA
+    searched on backward frames with warnings turned into errors"""
+    out = []
+    fixed = ['ATGAAATAACCTTATTTCATCC', 'CCATGAAATAAGGTTATTTCATGG', 'AUGAAAUAACCUUAUUUCAUCC', 'A-TGAAATAA-CCTTA-TTTCAT']
+    for k in range(n):
+        if k < 4 * len(fixed):
+            s = fixed[k % len(fixed)]
+        else:
+            s = _rand_valid_seq(rng, rng.choice([6, 9, 12, 20, 20, 30, 45, 60]))
+        x = rng.random()
+        if x < 0.4:
+            rf, tup = rng.choice(['both', 'both', 'bwd']), False
+        elif x < 0.55:
+            rf, tup = rng.choice([-1, -2, -3]), False
+        else:
+            fr = [0, 1, 2, -1, -2, -3]
+            rng.shuffle(fr)
+            fr = fr[:rng.randint(1, 6)]
+            if all(f >= 0 for f in fr):
+                fr.append(rng.choice([-1, -2, -3]))
+            rf, tup = fr, rng.random() < 0.6
+        cfg = (dict(need_start='always', need_stop=True, minlen=0) if rng.random() < 0.6 else
+               dict(need_start=rng.choice(['always', 'once', 'never']), need_stop=rng.random() < 0.6, minlen=rng.choice([0, 0, 3, 6])))
+        c = _mk(s, rf=rf, rf_tuple=tup, **cfg)
+        if k % 4 == 3 or (k >= 4 * len(fixed) and rng.random() < 0.25):
+            c['werr'] = True                      # upper case (often RNA), warnings are errors during the search
+            if 'U' not in s and rng.random() < 0.7:
+                c['s'] = s.replace('T', 'U')
+        else:
+            m = _mask(rng, s)
+            c['s'] = m
+            if m != m.upper():
+                c['via'] = rng.choice(['lower', 'swapcase'] if m == m.lower() and rng.random() < 0.7 else ['setslice', 'setitem', 'data'])
+        out.append(c)
+    return out
+
+
 def search_cases(broken, rng):
     """a theorem / generated table / tie is red and no sampled case failed: directed stream (implementation + oracle only)"""
-    return _gen_gap_stream(rng, 1500) + [_mk(_rand_seq(rng, rng.choice([9, 20, 45])), **_rand_valid_cfg(rng)) for _ in range(500)]
+    return _gen_gap_stream(rng, 1500) + _gen_masked_stream(rng, 1000) + [_mk(_rand_seq(rng, rng.choice([9, 20, 45])), **_rand_valid_cfg(rng)) for _ in range(500)]
 
 
 # ----------------------------------------------------------------------------- implementation
@@ -241,15 +299,50 @@ def _obs(orfs, seqid=None):
     return res
 
 
-def _call(s, kw):
+def _build(s, via=None):
+    """BioSeq whose text is s; lower-case letters can only be put there in place (the constructor upper-cases)"""
     from sugar import BioSeq
-    return _obs(BioSeq(s, id='x').find_orfs(**kw), 'x')
+    seq = BioSeq(s.upper(), id='x')
+    if s != s.upper():
+        if via == 'lower' and s == s.lower():
+            seq.str.lower()
+        elif via == 'swapcase' and s == s.lower():
+            seq.str.swapcase()
+        elif via == 'setslice':
+            i = 0
+            while i < len(s):
+                if s[i].islower():
+                    j = i
+                    while j < len(s) and s[j].islower():
+                        j += 1
+                    seq[i:j] = s[i:j]
+                    i = j
+                else:
+                    i += 1
+        elif via == 'setitem':
+            for i, ch in enumerate(s):
+                if ch.islower():
+                    seq[i] = ch
+        else:
+            seq.data = s
+    assert str(seq) == s, 'in-place construction of %r gave %r' % (s, str(seq))
+    return seq
 
 
-def _call_safe(s, kw):
+def _call(s, kw, via=None, werr=False):
+    import warnings
+    seq = _build(s, via)
+    if werr:                                      # warnings turned into errors while searching (not while constructing)
+        with warnings.catch_warnings():
+            warnings.simplefilter('error')
+            return _obs(seq.find_orfs(**kw), 'x')
+    return _obs(seq.find_orfs(**kw), 'x')
+
+
+def _call_safe(s, kw, via=None):
     """for the oracle: (result, None) or (None, exception class name)"""
     try:
-        return _call(s, kw), None
+        return _call(s, kw, via), None
     except Exception as e:
         return None, type(e).__name__
 
@@ -257,10 +350,10 @@ def _call_safe(s, kw):
 def _one_impl(case):
     from sugar import BioSeq, BioBasket
     kw = _kwargs(case)
-    res = _call(case['s'], kw)
+    res = _call(case['s'], kw, case.get('via'), case.get('werr', False))
     if case.get('basket'):
         other = 'CCATGCCCTGACAT'
-        both = BioBasket([BioSeq(case['s'], id='x'), BioSeq(other, id='y')]).find_orfs(**kw)
+        both = BioBasket([_build(case['s'], case.get('via')), BioSeq(other, id='y')]).find_orfs(**kw)
         assert [o.seqid for o in both] == ['x'] * len(res) + ['y'] * (len(both) - len(res))
         assert _obs(both[:len(res)]) == res, 'basket result differs from sequence result'
         assert _obs(both[len(res):]) == _obs(BioSeq(other, id='y').find_orfs(**kw))
@@ -326,7 +419,7 @@ def _strand(s, frame):
     """the string that is read in this frame: the sequence, or its reverse complement (computed independently of sugar)"""
     if frame >= 0:
         return s
-    return ''.join(COMP[c] for c in reversed(s))
+    return ''.join(COMP.get(c, c) for c in reversed(s))      # lower-case letters are kept (they are no codon letters)
 
 
 def _ref_frame(d, k, need_start, need_stop):
@@ -383,7 +476,7 @@ def _one_spec(case, got):
             return 'strand/rf metadata (%s, %s) do not identify a requested frame' % (strand, f)
     base = got
     if minlen > 0:                               # minlen is a pure filter on the result for minlen=0
-        base, err = _call_safe(s_orig, _kwargs(case, minlen=0))
+        base, err = _call_safe(s_orig, _kwargs(case, minlen=0), case.get('via'))
         if err:
             return 'raised %s with minlen=0' % err
         if got != [o for o in base if o[1] - o[0] >= minlen]:
@@ -406,7 +499,7 @@ def _one_spec(case, got):
                 return 'ORF %r does not start/end on a residue' % (m,)
     if '-' in s:                                 # one-to-one with the degapped sequence (relational)
         dg = s.replace('-', '')
-        other, err = _call_safe(dg, _kwargs(case, minlen=0))
+        other, err = _call_safe(dg, _kwargs(case, minlen=0), 'data')
         if err:
             return 'raised %s on the degapped sequence %r' % (err, dg)
         if any(not (0 <= o[0] < o[1] <= len(dg)) for o in other):
@@ -429,7 +522,8 @@ def _one_histkey(case, got):
     k = ['len=' + ('0-2' if n < 3 else '3-9' if n <= 9 else '10-99' if n < 100 else '100+'),
          'need_start=' + str(case['need_start']), 'need_stop=' + str(case['need_stop']),
          'rf=' + (rf if isinstance(rf, str) else 'int' if isinstance(rf, int) else 'tuple' if case.get('rf_tuple') else 'list'),
-         'gaps' if '-' in _norm_s(case) else 'gapfree', 'minlen>0' if case['minlen'] else 'minlen=0', 'gap=' + str(case.get('gap', '-'))]
+         'gaps' if '-' in _norm_s(case) else 'gapfree', 'minlen>0' if case['minlen'] else 'minlen=0', 'gap=' + str(case.get('gap', '-'))] + (
+        ['lower-case via ' + str(case.get('via'))] if case['s'] != case['s'].upper() else []) + (['warnings=error'] if case.get('werr') else [])
     if _is_exc(got):
         k.append('raises=' + got['e'])
     else:
@@ -459,7 +553,7 @@ def _one_python_snippet(case):
 # pure, so the expected result of every search step is run_C12 on the CURRENT text, which the driver-independent simulation below
 # computes with plain string operations.
 
-EDITS = ('setitem', 'setslice', 'replace', 'data', 'reverse', 'rc', 'complement', 'basket_rc')
+EDITS = ('setitem', 'setslice', 'replace', 'data', 'reverse', 'rc', 'complement', 'basket_rc', 'lower', 'swapcase', 'upper')
 FINDS = ('find', 'find_fresh', 'other', 'basket_twice')
 
 
@@ -486,6 +580,12 @@ def _apply_edit(cur, st):
         return cur.replace(st['a'], st['b']) if st['a'] else cur
     if op == 'data':
         return st['t']
+    if op == 'lower':
+        return cur.lower()
+    if op == 'swapcase':
+        return cur.swapcase()
+    if op == 'upper':
+        return cur.upper()
     if op == 'reverse':
         return cur[::-1]
     if op == 'rc':
@@ -561,19 +661,23 @@ def _gen_hist(rng):
             cfg = _cfgg()
             steps.append({'op': 'find', 'cfg': cfg})
         elif x < 0.66:                                # (c) in-place edit that keeps the length, then search again
-            op = rng.choice(['setitem', 'setslice', 'replace', 'data', 'reverse', 'rc', 'complement', 'basket_rc'])
+            op = rng.choice(['setitem', 'setslice', 'replace', 'data', 'reverse', 'rc', 'complement', 'basket_rc',
+                             'lower', 'swapcase', 'upper', 'setitem', 'setslice', 'data'])
             st = {'op': op}
+            low = rng.random() < 0.35             # soft-masking edits: lower-case letters
             if op == 'setitem':
-                st.update(i=rng.randrange(100), ch=rng.choice('ACGT' + ('-' if gap != '.' else '.')))
+                st.update(i=rng.randrange(100), ch=rng.choice('acgt' if low else 'ACGT' + ('-' if gap != '.' else '.')))
             elif op == 'setslice':
-                st.update(i=rng.randrange(100), t=_with_gap(rng, rng.choice(['ATG', 'TAA', 'TGA', 'CAT', 'TTA', '---', 'A-T-G', 'C']), gap))
+                st.update(i=rng.randrange(100), t=(rng.choice(['atg', 'taa', 'cat', 'tta', 'tca', 'cta', 'c']) if low else
+                            _with_gap(rng, rng.choice(['ATG', 'TAA', 'TGA', 'CAT', 'TTA', '---', 'A-T-G', 'C']), gap)))
             elif op == 'replace':
                 a, b = rng.choice([('A', 'C'), ('T', 'A'), ('G', 'T'), ('-', 'A'), ('C', '-'), ('TA', 'CC'), ('AT', 'TG')])
                 if gap == '.':
                     a, b = a.replace('-', '.'), b.replace('-', '.')
                 st.update(a=a, b=b)
             elif op == 'data':
-                st.update(t=_with_gap(rng, _rand_valid_seq(rng, len(s)), gap))
+                st.update(t=(_mask(rng, _with_gap(rng, _rand_valid_seq(rng, len(s)), gap)) if low else
+                             _with_gap(rng, _rand_valid_seq(rng, len(s)), gap)))
             steps.append(st)
             steps.append({'op': 'find', 'cfg': cfg})
         elif x < 0.80:                                # (d) mutate an earlier result
@@ -589,7 +693,7 @@ def _gen_hist(rng):
 
 def _hist_impl(case):
     from sugar import BioSeq, BioBasket
-    seq = BioSeq(case['s'], id='x')
+    seq = _build(case['s'], 'data')
     cur = case['s']
     out = []
     kept = []                                          # (ORFList, observation at the time) of results that were not mutated
@@ -602,10 +706,10 @@ def _hist_impl(case):
                     r = seq.find_orfs(**kw)
                     o = _obs(r, 'x')
                 elif op == 'find_fresh':
-                    r = BioSeq(cur, id='x').find_orfs(**kw)
+                    r = _build(cur, 'data').find_orfs(**kw)
                     o = _obs(r, 'x')
                 elif op == 'other':
-                    r = BioSeq(st['s'], id='x').find_orfs(**kw)
+                    r = _build(st['s'], 'data').find_orfs(**kw)
                     o = _obs(r, 'x')
                 else:
                     r = BioBasket([seq, seq]).find_orfs(**kw)
@@ -628,6 +732,12 @@ def _hist_impl(case):
                 seq.str.replace(st['a'], st['b'])
             elif op == 'data':
                 seq.data = st['t']
+            elif op == 'lower':
+                seq.str.lower()
+            elif op == 'swapcase':
+                seq.str.swapcase()
+            elif op == 'upper':
+                seq.str.upper()
             elif op == 'reverse':
                 seq.reverse()
             elif op == 'rc':
